@@ -4,6 +4,40 @@ NOTES = ("Every check re-checks the Coq theorems of coq/Props/<id>.v (full .vo b
          "See DESIGN.md for the trusted base and known_findings.json for recorded defects.")
 NOT_APPLICABLE = {}
 CLAIMED = {
+ "C13": {
+  "text": "Partial. The model mirrors markup/line_parser.go function by function (markers, properties of every value "
+          "type, escapes, replacement markers and processors, close-by-name matcher, character prefix, trimming and "
+          "clamping). Proved: text without markup is returned as it is (plain_text_identity), TextForAttribute returns "
+          "exactly [length] characters at [position] of the returned text, in characters. Not proved: the general "
+          "round trip parse(render d) = meaning d over marked-up documents. Correspondence: documents from a grammar, "
+          "model vs implementation, and for structured documents the implementation vs the meaning the generator knows "
+          "by construction (independent oracle).",
+  "design_ref": "DESIGN.md section 5, C13",
+  "note": "Axioms: the four stdlib axioms behind Flocq's reals (decimal property values). unicode.IsLetter/IsDigit "
+          "tables are generated from the toolchain and cross-checked on every run; the two fixed regexps are "
+          "hand-written matchers; strconv.ParseFloat/Atoi and fmt.Sprint are modelled.",
+  "technique": "Coq model + partial proofs; differential correspondence check with an independent document-meaning oracle",
+ },
+ "C14": {
+  "text": "Theorem: ParseMarkup on a parser value in any state, after any history of lines (failing ones included), "
+          "returns what parsing the line alone returns: every persistent field of LineParser is overwritten before it "
+          "is read. Correspondence: histories of lines on one LineParser value vs a fresh one vs the model.",
+  "design_ref": "DESIGN.md section 5, C14",
+  "note": "The runner-level statement (attributes of a line do not depend on the dialogue prefix) follows because the "
+          "runner calls ParseMarkup on the concatenated line text only; it is exercised by the runner families.",
+  "technique": "Coq proof of state independence + differential correspondence check over call histories",
+ },
+ "C15": {
+  "text": "Theorems: the fuel of the main loop and of the property loop (one unit per remaining rune plus one) is "
+          "sufficient - more fuel never changes the answer - so parsing terminates with a result or an error value for "
+          "every rune list and, through Go's decoding, every byte string; every returned attribute has non-negative "
+          "position and length inside the returned text (in characters); TextForAttribute never panics on a returned "
+          "attribute. Correspondence: arbitrary bytes, mutated documents, fragment soups.",
+  "design_ref": "DESIGN.md section 5, C15",
+  "note": "The model has no panic outcome because the Go parser has no panic site of its own; panics inside regexp, "
+          "strings or strconv would only be seen by the correspondence run.",
+  "technique": "Coq proof (fuel sufficiency, range invariant) + differential correspondence check / fuzz streams",
+ },
  "C03": {
   "text": "Theorems: a set/declare statement stores exactly SetSpec.set_spec(previous, op, value) with one Set* call "
           "(exec_set_spec), a failing statement changes neither the store nor the storer's call log, types are stable, "
